@@ -1,23 +1,55 @@
 import Hannibal.Monitor.Basic
 /-
   C07 — restart keeps identity and mailbox and yields a freshly started incarnation.
+
+  `monC07`  : strategy (default keeps the value, recreate-from-default starts a fresh Default value,
+              a non-restartable spawn ignores the request) and timers (those registered by a previous
+              incarnation no longer fire once the new one has started).
+  `monC07o` : order — a message submitted after k accepted restart requests is handled by
+              incarnation k+1 (exactly, because submission is atomic with `begin`).
 -/
 namespace Hannibal
 
 structure C07St where
   inc : Nat                          -- incarnations started so far
   started : Bool                     -- the current incarnation's `started` has completed
-  accepted : Nat                     -- restart requests accepted so far
-  expect : List (Nat × Nat)          -- client message ↦ restart requests accepted before it was submitted
   timers : List (Nat × Nat)          -- timer ↦ incarnation that registered it
-  afterStopped : Bool                -- between `stopped` and `started` of a refresh
-  vnewSeen : Bool
-  failure : Bool
+  vnewSeen : Bool                    -- a fresh value was constructed since the last `stopped`
   deriving Repr, DecidableEq
 
 def monC07 (c : MonCtx) : Mon C07St where
-  init := { inc := 0, started := false, accepted := 0, expect := [], timers := [], afterStopped := false,
-            vnewSeen := false, failure := false }
+  init := { inc := 0, started := false, timers := [], vnewSeen := false }
+  step st l :=
+    let restartable := !c.cfg.stream && c.cfg.strat != .non
+    match l with
+    | .cbBegin .started =>
+      if st.inc ≥ 1 then
+        -- a non-restartable spawn ignores the request; recreate starts a fresh Default value, default keeps it
+        if !restartable then none
+        else if c.cfg.strat == .recreate && !st.vnewSeen then none
+        else if c.cfg.strat == .only && st.vnewSeen then none
+        else some { st with inc := st.inc + 1, started := false, vnewSeen := false }
+      else some { st with inc := st.inc + 1, started := false, vnewSeen := false }
+    | .cbEnd .started ok => some { st with started := ok }
+    | .cbEnd .stopped _ => some { st with vnewSeen := false }
+    | .vnew _ => some { st with vnewSeen := true }
+    | .ctxTimer t _ _ => some { st with timers := (t, st.inc) :: st.timers }
+    | .fire t _ | .timerArm t _ =>
+      -- timers registered by a previous incarnation no longer fire once the new one has started
+      (match lookup t st.timers with
+       | some i => if i < st.inc && st.started then none else some st
+       | none => some st)
+    | _ => some st
+
+structure C07oSt where
+  inc : Nat
+  accepted : Nat                     -- restart requests accepted so far
+  expect : List (Nat × Nat)          -- client message ↦ restart requests accepted before it was submitted
+  failure : Bool
+  deriving Repr, DecidableEq
+
+def monC07o (c : MonCtx) : Mon C07oSt where
+  init := { inc := 0, accepted := 0, expect := [], failure := false }
   step st l :=
     let restartable := !c.cfg.stream && c.cfg.strat != .non
     match l with
@@ -26,30 +58,13 @@ def monC07 (c : MonCtx) : Mon C07St where
       (match k.msg? with
        | some m => some { st with expect := (m, st.accepted) :: st.expect }
        | none => some st)
-    | .cbBegin .started =>
-      if st.inc ≥ 1 then
-        -- a non-restartable spawn ignores the request; recreate starts a fresh Default value, default keeps it
-        if !restartable then none
-        else if c.cfg.strat == .recreate && !st.vnewSeen then none
-        else if c.cfg.strat == .only && st.vnewSeen then none
-        else some { st with inc := st.inc + 1, started := false, afterStopped := false, vnewSeen := false }
-      else some { st with inc := st.inc + 1, started := false, vnewSeen := false }
-    | .cbEnd .started ok => some { st with started := ok, failure := st.failure || !ok }
-    | .cbEnd .stopped _ => some { st with afterStopped := true, vnewSeen := false }
-    | .vnew _ => some { st with vnewSeen := true }
+    | .cbBegin .started => some { st with inc := st.inc + 1 }
     | .cbBegin (.handle m) =>
       if st.failure then none else
       (match lookup m st.expect with
        | some n =>
-         -- messages accepted before / after a request are handled by the incarnation before / after it
          if restartable then (if st.inc == n + 1 then some st else none)
          else (if st.inc == 1 then some st else none)
-       | none => some st)
-    | .ctxTimer t _ _ => some { st with timers := (t, st.inc) :: st.timers }
-    | .fire t _ | .timerArm t _ =>
-      -- timers registered by a previous incarnation no longer fire once the new one has started
-      (match lookup t st.timers with
-       | some i => if i < st.inc && st.started then none else some st
        | none => some st)
     | l => if l.isFailure then some { st with failure := true } else some st
 
